@@ -272,6 +272,12 @@ func genWorld(t *rapid.T, o WorldOpts) *Desc {
 						am = AxisDef{Sub: a.Sub, Code: a.Code, Type: "cc", CC: intp(20 + i), Min: a.Min, Max: a.Max, Deadzone: a.Deadzone}
 					case 2:
 						am.Note = intp(clampNote(*a.Note + 5))
+					case 3:
+						// the same keys, but the position is shaped differently: other deadzone, deadzone at the centre
+						am.Deadzone = floatp(rapid.SampledFrom([]float64{0, 0.1, 0.3}).Draw(t, "axisDZOther"))
+						if a.Min == 0 {
+							am.Center = boolp(true)
+						}
 					}
 				}
 				m.Axes = append(m.Axes, am)
@@ -592,6 +598,25 @@ func genHistory(t *rapid.T, d *Desc, o HistOpts) []Step {
 					delete(h.axisOut, axisKey(a))
 				}
 			}
+		case kind < 95 && len(axes) > 0 && rapid.Bool().Draw(t, "excursionAcrossMappings"):
+			// an axis is pushed to an end stop (or somewhere), the mapping is changed while it is there, then it comes back
+			var mapKeys []uint16
+			for _, c := range actKeys {
+				if a := h.actions[c]; a == "mapping_up" || a == "mapping_down" {
+					mapKeys = append(mapKeys, c)
+				}
+			}
+			if len(mapKeys) == 0 {
+				continue
+			}
+			a := axes[rapid.IntRange(0, len(axes)-1).Draw(t, "axis")]
+			v := rapid.SampledFrom([]int32{a.Min, a.Max, a.Min, a.Max, axisSample(t, a)}).Draw(t, "excursionTo")
+			h.steps = append(h.steps, Step{T: "abs", Sub: a.Sub, Code: a.Code, Val: v})
+			for k := rapid.IntRange(1, 2).Draw(t, "mappingTaps"); k > 0; k-- {
+				h.tap(mapKeys[rapid.IntRange(0, len(mapKeys)-1).Draw(t, "mappingKey")])
+			}
+			h.steps = append(h.steps, Step{T: "abs", Sub: a.Sub, Code: a.Code, Val: restValue(t, a)})
+			delete(h.axisOut, axisKey(a))
 		case kind < 97 && len(axes) > 0:
 			a := axes[rapid.IntRange(0, len(axes)-1).Draw(t, "axis")]
 			v := axisSample(t, a)
